@@ -183,20 +183,24 @@ impl Property for C15Prop {
             docs.push(DocSrc { name: role.clone(), xml: peer_doc(role, &ss, if k == m - 1 { child_xml.as_deref() } else { None }, false), via_rfsm: false, model: None });
             all.extend(ss);
         }
-        if late {
+        // sessions started by host tasks while the invoking peer starts its children: concurrent start_fsm
+        let nlate = if late { rng.range(1, 2) as usize } else { 0 };
+        for l in 0..nlate {
+            let role = if l == 0 { "late".to_string() } else { format!("late{}", l + 1) };
             let allowed: Vec<&str> = roles.iter().map(|s| s.as_str()).collect();
             let mut ss = Vec::new();
             for _ in 0..rng.range(1, 3) {
-                ss.push(mk(rng, "late", &allowed));
+                ss.push(mk(rng, &role, &allowed));
             }
-            docs.push(DocSrc { name: "late".into(), xml: peer_doc("late", &ss, None, true), via_rfsm: false, model: None });
+            docs.push(DocSrc { name: role.clone(), xml: peer_doc(&role, &ss, None, true), via_rfsm: false, model: None });
             all.extend(ss);
         }
         let mut script: Vec<Step> = (0..m).map(|d| Step::Start { doc: d }).collect();
         // triggers: the driver and a producer fire the k.<n> events concurrently
         let mut prod: Vec<PStep> = Vec::new();
-        if late {
-            prod.push(PStep::Start { doc: m });
+        let mut starters: Vec<Vec<PStep>> = Vec::new();
+        for l in 0..nlate {
+            starters.push(vec![PStep::Start { doc: m + l }]);
         }
         let mut driver_sends: Vec<Step> = Vec::new();
         for sp in &all {
@@ -210,10 +214,13 @@ impl Property for C15Prop {
                 }
             }
         }
-        if with_child {
-            // give the invokes time to start before the parent addresses them
-            script.push(Step::Quiesce);
+        // the late sessions are started by their own host tasks right away: they race with each other and
+        // with the children the last peer is invoking at this moment
+        if nlate > 0 {
+            script.push(Step::Producers { ids: (1..=nlate).collect() });
         }
+        // give the invokes time to start before the parent addresses them
+        script.push(Step::Quiesce);
         script.push(Step::Producers { ids: vec![0] });
         script.extend(driver_sends);
         script.push(Step::Quiesce);
@@ -224,11 +231,24 @@ impl Property for C15Prop {
         for sp in &all {
             notes.insert(format!("send.{}", sp.n), format!("{}|{}|{}|{}|{}", sp.from, sp.dest, sp.payload, sp.with_id, if sp.target_attr.contains("targetexpr") { "expr" } else { "lit" }));
         }
-        Scenario { kind: "S3-routing".into(), docs, files: vec![], script, producers: vec![prod], knobs: Knobs { snapshots: rng.chance(1, 2), ..Default::default() }, notes }
+        Scenario { kind: "S3-routing".into(), docs, files: vec![], script, producers: { let mut p = vec![prod]; p.extend(starters); p }, knobs: Knobs { snapshots: rng.chance(1, 2), ..Default::default() }, notes }
     }
 
     fn check(&self, v: &RunView, probes: &mut Probes) -> Verdict {
         let mut verdict = Verdict::default();
+        {
+            // Session ids are judged on every history, also on one that did not complete: two sessions with
+            // one id share one entry of the executor's table, one of them can then not even be cancelled.
+            let mut seen: BTreeSet<u32> = BTreeSet::new();
+            for r in v.log {
+                if let RecKind::SessionStart { session, .. } = &r.kind {
+                    if !seen.insert(*session) {
+                        verdict.violations.push(viol("C15", "C15.id-unique", format!("session id {} was issued twice", session), "session-id".into()));
+                        return verdict;
+                    }
+                }
+            }
+        }
         if !outcome_gate(v, &mut verdict) {
             return verdict;
         }
